@@ -274,6 +274,7 @@ def run_check(prop, tier, seed, replay=None):
     for k, v in known_hits:
         out_lines.append("KNOWN-FINDING: property=%s %s" % (pid, k.get("what", "")))
     if unexplained:
+        unexplained.sort(key=lambda u: len(u.key))
         v = unexplained[0]
         if hbin is not None and os.path.exists(C.DRIVER_BIN):
             try:
